@@ -19,7 +19,7 @@ CONSTANTS CAP,      \* arena length in bytes
           MaxRet,   \* retained slots (8 in the code)
           MaxOps,
           ConnLen,  \* total length of this session's CONNECT packet
-          Dev,      \* deviations: "scratch_no_compact", "ack_no_compact", "offset_relative", "encode_no_compact"
+          Dev,      \* deviations: "scratch_no_compact", "ack_no_compact", "offset_relative", "encode_no_compact", "ack_swap_remove"
           Record
 
 VARIABLES buf,      \* [0..CAP-1 -> tag]
@@ -109,7 +109,9 @@ Q0(len) ==
 \* the acknowledgement of retained packet i arrives: remove + compact
 Ack(i) ==
   /\ i \in 1..Len(ret)
-  /\ LET r0 == SubSeq(ret, 1, i - 1) \o SubSeq(ret, i + 1, Len(ret))
+  /\ LET r0 == IF "ack_swap_remove" \in Dev /\ i < Len(ret)
+               THEN SubSeq(ret, 1, i - 1) \o << ret[Len(ret)] >> \o SubSeq(ret, i + 1, Len(ret) - 1)
+               ELSE SubSeq(ret, 1, i - 1) \o SubSeq(ret, i + 1, Len(ret))
          cp == IF "ack_no_compact" \in Dev THEN << buf, r0, used >> ELSE Compact(buf, r0) IN
      /\ buf' = cp[1] /\ ret' = cp[2] /\ used' = cp[3]
   /\ last' = "ok"
